@@ -859,6 +859,12 @@ impl LineRow {
         self.op_index.0 = 0;
     }
 
+    /// Stop advancing the address until it is set again.
+    #[cfg(feature = "write")]
+    pub(crate) fn set_tombstone(&mut self) {
+        self.tombstone = true;
+    }
+
     /// Perform any reset that was required after copying the previous row.
     #[inline]
     pub fn reset<R: Reader>(&mut self, header: &LineProgramHeader<R>) {
